@@ -138,7 +138,11 @@ def make_top(model, have_H=True, have_A=False, levy="space-time", halfway=False,
 
     def cache_get(it, obj, idx, node, fi):
         raise SimRaise("KeyError", "cache miss", node, fi)
-    cache = Obj("cache", getitem_hook=cache_get)
+    cache = Obj("cache", getitem_hook=cache_get, attrs={
+        # a cold cache through the reading methods as well: nothing is ever found
+        "get": Intrinsic("cache.get", lambda it, a, k, n, f: a[1] if len(a) > 1 else k.get("default")),
+        "__contains__": Intrinsic("cache.__contains__", lambda it, a, k, n, f: False),
+        "__len__": Intrinsic("cache.__len__", lambda it, a, k, n, f: Fraction(0))})
     attrs = {
         "_increment_and_space_time_levy_area_cache": cache,
         "_have_H": have_H, "_have_A": have_A, "_levy_area_approximation": levy,
